@@ -286,7 +286,16 @@ def eval_state(case):
         prime = queries(ci3, objs3, forest, "before add(%s,%s)" % (a["c"], a["o"]), arch, True, light=a["c"])      # fills any cache
         out = do_add(ci3, objs3, a["c"], a["o"])
         if out == "ok" and not prime:
-            after = queries(ci3, objs3, sorted(set(forest) | set([a["o"]])), "forest %s then add(%s,%s), queried before and after the add"
+            # the forest after the add: the new variant and the sub-tree it brings, if its container is in the forest
+            grown = set(forest)
+            if a["c"] == "ROOT" or a["c"] in grown:
+                todo = [objs3[a["o"]]]
+                while todo:
+                    v = todo.pop()
+                    if id(v) in names3 and names3[id(v)] not in grown:
+                        grown.add(names3[id(v)])
+                        todo.extend(v.variants.values())
+            after = queries(ci3, objs3, sorted(grown), "forest %s then add(%s,%s), queried before and after the add"
                             % (_short(case["hist"]), a["c"], a["o"]), arch, True, light=a["c"])
             if after:
                 return after
